@@ -119,4 +119,32 @@ theorem triple_text (b e : DateTime) (n : Nat) (letter : Nat) :
   rw [this]
   simp [dateTriple, Periods.luisOf]
 
+/-! ### first of a month + k months -/
+
+/-- `datetime(y, m, 1) + datedelta(months=k)` is the first of the shifted month (the day 1 exists in every month, so the
+shim neither rolls forward nor clamps). -/
+theorem addMonths_first (y m : Nat) (k : Int) (hk : k ≠ 0) (h1 : 1 ≤ m) (h2 : m ≤ 12)
+    (Y M : Nat) (hYM : ((Y : Int), M) = shiftMonth y m k) (hY1 : 1 ≤ Y) (hY2 : Y ≤ 9999) :
+    datedeltaAdd ⟨y, m, 1⟩ 0 k 0 = some ⟨Y, M, 1⟩ := by
+  rw [datedeltaAdd_months_eq]
+  unfold shiftMonth at hYM
+  simp only [Prod.mk.injEq] at hYM
+  have ms : monthStep ⟨y, m, 1⟩ k = ((Y : Int), M, 1) := by
+    unfold monthStep
+    simp only [ne_eq, hk, not_false_eq_true, if_true]
+    have hdim : ¬ (1 > (if 1 ≤ ((y : Int) * 12 + ((m : Int) - 1) + k) / 12 ∧ ((y : Int) * 12 + ((m : Int) - 1) + k) / 12 ≤ 9999 then
+        daysInMonth (((y : Int) * 12 + ((m : Int) - 1) + k) / 12).toNat ((((y : Int) * 12 + ((m : Int) - 1) + k) % 12).toNat + 1)
+      else 31)) := by
+      split
+      · have := daysInMonth_ge (((y : Int) * 12 + ((m : Int) - 1) + k) / 12).toNat
+          ((((y : Int) * 12 + ((m : Int) - 1) + k) % 12).toNat + 1) (by omega) (by omega)
+        omega
+      · omega
+    rw [if_neg hdim, ← hYM.1, ← hYM.2]
+  have hM : 1 ≤ M ∧ M ≤ 12 := by omega
+  have v := valid_first Y M hY1 hY2 hM.1 hM.2
+  rw [ms]
+  simp only [Int.toNat_natCast]
+  rw [if_pos (by omega), if_pos v]
+
 end RTV.ZhDT
